@@ -117,10 +117,10 @@ struct Config
     {
         return kind == "grid" ? 0 : kind == "gridn" ? 1 : 2;
     }
-    // a model value >= 10 is the symbolic "far" value of the model's axis
+    // model values 10..99 are the symbolic "far" values of the model's axis (10 -> 1000000, ...)
     int real1(int i, int m) const
     {
-        long long v = m >= 10 ? (long long)m - 10 + 1000000 : m;
+        long long v = m >= 10 && m < 100 ? (long long)m - 10 + 1000000 : m;
         return (int)vt::tlcInt(sgn[i] * v + off[i]);
     }
     MC real(const MC &m) const
